@@ -299,7 +299,14 @@ C16for(E, tags, q, d, u) ==
 C16ok(E, tags, q, d) == C16for(E, tags, q, d, 1) /\ ((HasTag(tags, "resub") /\ SubRet(E, 2) # 0) => C16for(E, tags, q, d, 2))
 \* C14 for the time-driven sources / operators: two subscribers of the SAME observable value each get what the timed definition
 \* gives for their own subscription (own worker, own timer, own clock origin)
-C14ok(E, tags, q, d) == HasTag(tags, "twice") => \A u \in {1, 2} : (SubRet(E, u) # 0 => C16for(E, tags, q, d, u))
+C14ok(E, tags, q, d) ==
+  /\ HasTag(tags, "twice") => \A u \in {1, 2} : (SubRet(E, u) # 0 => C16for(E, tags, q, d, u))
+  \* "twice-cold3": a cold source 1,2,3 behind observe_on / subscribe_on (values possibly mapped by +1 per map), subscribed twice:
+  \* both subscribers get the same three items and the completion
+  /\ HasTag(tags, "twice-cold3") =>
+       /\ Subscribers(E) = {1, 2}
+       /\ \A u \in {1, 2} : LET x == DeliveredEvents(E, u) IN Len(x) = 4 /\ x[4] = <<"c", 0>> /\ \A i \in 1..3 : x[i][1] = "n" /\ x[i][2] = x[1][2] + i - 1
+       /\ DeliveredEvents(E, 1) = DeliveredEvents(E, 2)
 
 \* ---------------------------------------------------------------- C13 with a source that runs on its own thread
 \* tags: "conn-stop"    the last subscriber leaving stops the source: every emission attempt of the source thread later than
